@@ -17,12 +17,19 @@ Definition FM : nat := N.to_nat FRAMES_MAX.
 Definition main_attrs : list (name * value) := builtin_attrs (B ++ C).
 Definition main_only : list name := filter (fun c => negb (existsb (String.eqb c) B)) C.
 
+(* the code variant, as read from the current sources (both true since 367eb72) *)
+Definition CHK : bool := gen_registry_hit_checks_loading.
+Definition GRD : bool := gen_builtins_init_guarded.
+Theorem C14_side_variant : CHK = true /\ GRD = true /\ gen_is_loading_is_body_frame_of_module = true.
+Proof. vm_compute; repeat split; reflexivity. Qed.
+
 Section Oracles.
   Variables SrcId Body : Type.
   Variable loader : path -> load_result SrcId.
   Variable compiler : path -> SrcId -> comp_result Body.
-  Notation stepM := (step SrcId Body loader compiler B FM).
-  Notation runM := (run_events SrcId Body loader compiler B FM).
+  Notation stepM := (step SrcId Body loader compiler B FM CHK GRD).
+  Notation runM := (run_events SrcId Body loader compiler B FM CHK GRD).
+  Notation loadrunM := (load_and_run SrcId Body loader compiler B FM GRD).
   Notation init := (init_state main_attrs).
 
   Theorem C14_side_main_has_builtins : forall b, In b B -> In b (akeys main_attrs).
@@ -30,78 +37,117 @@ Section Oracles.
 
   (* the invariant behind every statement below *)
   Theorem C14_invariant : forall evs, Inv B (runM init evs).
-  Proof. exact (run_init_inv SrcId Body loader compiler B FM main_attrs C14_side_main_has_builtins). Qed.
+  Proof. exact (run_init_inv SrcId Body loader compiler B FM CHK GRD main_attrs C14_side_main_has_builtins). Qed.
 
+  (* a module's top-level code: at most once per module object; a started body whose object is not the registered
+     object of its path is a FAILED import (never imported, not running); no path twice among the live ones *)
   Theorem C14_body_runs_at_most_once : forall evs,
     let st := runM init evs in
-    NoDup (ran st) /\ NoDup (map (fun id => m_path (getmod st id)) (ran st)).
-  Proof. exact (body_runs_at_most_once SrcId Body loader compiler B FM main_attrs C14_side_main_has_builtins). Qed.
+    NoDup (ran st)
+    /\ (forall id, In id (ran st) -> registered st id \/ (m_imported (getmod st id) = false /\ is_loading st id = false))
+    /\ (forall i j, In i (ran st) -> In j (ran st) -> registered st i -> registered st j ->
+                    m_path (getmod st i) = m_path (getmod st j) -> i = j).
+  Proof. exact (body_runs_at_most_once SrcId Body loader compiler B FM CHK GRD main_attrs C14_side_main_has_builtins). Qed.
 
-  Theorem C14_loaded_at_most_once : forall evs p,
-    compilable SrcId Body loader compiler p -> count_occ string_dec (loads (runM init evs)) p <= 1.
-  Proof. exact (loaded_at_most_once SrcId Body loader compiler B FM main_attrs). Qed.
+  (* a body is started only for an unregistered path or over the leftover of a failed import: never while the
+     module is loaded or loading *)
+  Theorem C14_body_starts_only_if_absent_or_failed : forall st p st' id b,
+    dead st = None -> stepM st (EStartImport p) = (st', OEntered id b) ->
+    absent_or_failed CHK st p /\ id = List.length (heap st) /\ ran st' = id :: ran st /\ loads st' = p :: loads st
+    /\ alookup (reg st') p = Some id /\ active st' = id.
+  Proof. exact (body_starts_only_if_absent_or_failed SrcId Body loader compiler B FM CHK GRD). Qed.
+
+  Theorem C14_loader_called_only_if_absent_or_failed : forall st e,
+    loads (fst (stepM st e)) = loads st
+    \/ exists p, e = EStartImport p /\ loads (fst (stepM st e)) = p :: loads st /\ absent_or_failed CHK st p.
+  Proof. exact (loader_called_only_if_absent_or_failed SrcId Body loader compiler B FM CHK GRD). Qed.
+
+  (* loaded at most once per successful load: a module that finished loading stays registered and imported for
+     ever, and importing it is the cached arm: no loader call, no body *)
+  Theorem C14_loaded_module_is_settled : forall evs1 evs2 p id,
+    settled (runM init evs1) p id -> settled (runM (runM init evs1) evs2) p id.
+  Proof. exact (loaded_module_is_settled SrcId Body loader compiler B FM CHK GRD main_attrs C14_side_main_has_builtins). Qed.
+
+  Theorem C14_settled_import_is_cached : forall st p id,
+    dead st = None -> settled st p id -> stepM st (EStartImport p) = (log_yield p id st, OModule id).
+  Proof. exact (settled_import_is_cached SrcId Body loader compiler B FM CHK GRD). Qed.
+
+  Theorem C14_yielded_is_settled : forall evs p id,
+    let st := runM init evs in In (p, id) (yielded st) -> settled st p id.
+  Proof. exact (yielded_is_settled SrcId Body loader compiler B FM CHK GRD main_attrs C14_side_main_has_builtins). Qed.
 
   Theorem C14_same_module_object : forall evs p i j,
     let st := runM init evs in In (p, i) (yielded st) -> In (p, j) (yielded st) -> i = j.
-  Proof. exact (same_module_object SrcId Body loader compiler B FM main_attrs C14_side_main_has_builtins). Qed.
+  Proof. exact (same_module_object SrcId Body loader compiler B FM CHK GRD main_attrs C14_side_main_has_builtins). Qed.
 
   Theorem C14_module_object_determines_path : forall evs p q i,
     let st := runM init evs in In (p, i) (yielded st) -> In (q, i) (yielded st) -> p = q.
-  Proof. exact (module_object_determines_path SrcId Body loader compiler B FM main_attrs C14_side_main_has_builtins). Qed.
+  Proof. exact (module_object_determines_path SrcId Body loader compiler B FM CHK GRD main_attrs C14_side_main_has_builtins). Qed.
 
   Theorem C14_cycle_is_import_error : forall st p id,
-    dead st = None -> alookup (reg st) p = Some id -> m_imported (getmod st id) = false ->
+    dead st = None -> alookup (reg st) p = Some id -> m_imported (getmod st id) = false -> is_loading st id = true ->
     stepM st (EStartImport p) = raise Body st (XErr (mkerr KImport [cyc_msg p])).
-  Proof. exact (cycle_is_import_error SrcId Body loader compiler B FM). Qed.
+  Proof. exact (cycle_is_import_error SrcId Body loader compiler B FM CHK GRD). Qed.
 
   Theorem C14_loading_module_is_cycle_error : forall evs f,
     let st := runM init evs in
     dead st = None -> In f (frames st) -> f_body f = true ->
     let p := m_path (getmod st (f_mod f)) in
     stepM st (EStartImport p) = raise Body st (XErr (mkerr KImport [cyc_msg p])).
-  Proof. exact (loading_module_is_cycle_error SrcId Body loader compiler B FM main_attrs C14_side_main_has_builtins). Qed.
+  Proof. exact (loading_module_is_cycle_error SrcId Body loader compiler B FM CHK GRD main_attrs C14_side_main_has_builtins). Qed.
+
+  (* the leftover of a failed import (body threw, or the call failed at the frame limit) is removed and the module
+     loaded afresh: loader asked again, new module object, body from the start *)
+  Theorem C14_failed_import_is_retried : forall st p old,
+    dead st = None -> alookup (reg st) p = Some old -> m_imported (getmod st old) = false ->
+    is_loading st old = false ->
+    stepM st (EStartImport p) = loadrunM (set_reg st (aremove (reg st) p)) p.
+  Proof.
+    exact (fun st p old => failed_import_is_retried SrcId Body loader compiler B FM CHK GRD st p old
+                             (proj1 C14_side_variant)).
+  Qed.
 
   Theorem C14_failed_load_is_import_error : forall st p e,
     dead st = None -> alookup (reg st) p = None -> loader p = LoadErr e ->
     stepM st (EStartImport p) = raise Body (log_load p st) (XErr e).
-  Proof. exact (failed_load_is_import_error SrcId Body loader compiler B FM). Qed.
+  Proof. exact (failed_load_is_import_error SrcId Body loader compiler B FM CHK GRD). Qed.
 
   Theorem C14_failed_compile_is_import_error : forall st p s msgs,
     dead st = None -> alookup (reg st) p = None -> loader p = LoadOk s -> compiler p s = CompErr msgs ->
     stepM st (EStartImport p)
     = raise Body (log_load p st) (XErr (mkerr KImport (comp_head :: map (append comp_indent) msgs))).
-  Proof. exact (failed_compile_is_import_error SrcId Body loader compiler B FM). Qed.
+  Proof. exact (failed_compile_is_import_error SrcId Body loader compiler B FM CHK GRD). Qed.
 
   Theorem C14_failed_import_registers_nothing : forall st p,
     dead st = None ->
-    (exists id, alookup (reg st) p = Some id /\ m_imported (getmod st id) = false)
+    (exists id, alookup (reg st) p = Some id /\ m_imported (getmod st id) = false /\ is_loading st id = true)
     \/ (alookup (reg st) p = None /\ ((exists e, loader p = LoadErr e) \/ exists s msgs, loader p = LoadOk s /\ compiler p s = CompErr msgs)) ->
     let st' := fst (stepM st (EStartImport p)) in
     reg st' = reg st /\ heap st' = heap st /\ ran st' = ran st /\ yielded st' = yielded st
     /\ exists x, snd (stepM st (EStartImport p)) = OCaught x \/ snd (stepM st (EStartImport p)) = ODead x.
-  Proof. exact (failed_import_registers_nothing SrcId Body loader compiler B FM). Qed.
+  Proof. exact (failed_import_registers_nothing SrcId Body loader compiler B FM CHK GRD). Qed.
 
   Theorem C14_raise_delivers : forall st x,
     (exists h hs, handlers st = h :: hs /\ snd (raise Body st x) = OCaught x /\ dead (fst (raise Body st x)) = dead st
                   /\ handlers (fst (raise Body st x)) = hs
-                  /\ List.length (frames (fst (raise Body st x))) <= h_frames h)
+                  /\ List.length (frames (fst (raise Body st x))) <= h)
     \/ (handlers st = [] /\ snd (raise Body st x) = ODead x /\ dead (fst (raise Body st x)) = Some x).
   Proof. exact (raise_delivers Body). Qed.
 
   Theorem C14_globals_isolated : forall evs,
     let st := runM init evs in dead st = None -> active st = top_mod st.
-  Proof. exact (globals_isolated SrcId Body loader compiler B FM main_attrs C14_side_main_has_builtins). Qed.
+  Proof. exact (globals_isolated SrcId Body loader compiler B FM CHK GRD main_attrs C14_side_main_has_builtins). Qed.
 
   Theorem C14_call_enters_defining_module : forall st m,
     dead st = None -> m < List.length (heap st) -> List.length (frames st) <> FM ->
     let st' := fst (stepM st (ECall m)) in
-    frames st' = mkframe m false [] :: frames st /\ active st' = m /\ top_mod st' = m.
-  Proof. exact (call_enters_defining_module SrcId Body loader compiler B FM). Qed.
+    frames st' = mkframe m false :: frames st /\ active st' = m /\ top_mod st' = m.
+  Proof. exact (call_enters_defining_module SrcId Body loader compiler B FM CHK GRD). Qed.
 
   Theorem C14_return_restores_caller_module : forall st f0 f r,
     dead st = None -> frames st = f0 :: f :: r ->
     let st' := fst (stepM st EReturn) in frames st' = f :: r /\ active st' = f_mod f.
-  Proof. exact (return_restores_caller_module SrcId Body loader compiler B FM). Qed.
+  Proof. exact (return_restores_caller_module SrcId Body loader compiler B FM CHK GRD). Qed.
 
   Theorem C14_global_read_is_local : forall st x,
     dead st = None -> active st = top_mod st ->
@@ -110,29 +156,46 @@ Section Oracles.
     | Some v => (st, OValue v)
     | None => raise Body st (XErr (mkerr KName [undefined_variable x]))
     end.
-  Proof. exact (global_read_is_local SrcId Body loader compiler B FM). Qed.
+  Proof. exact (global_read_is_local SrcId Body loader compiler B FM CHK GRD). Qed.
 
   Theorem C14_global_write_is_local : forall st x v q,
     active st = top_mod st -> q <> top_mod st ->
     attrs_of (fst (stepM st (ESetGlobal x v))) q = attrs_of st q
     /\ attrs_of (fst (stepM st (EDefineGlobal x v))) q = attrs_of st q.
-  Proof. exact (global_write_is_local SrcId Body loader compiler B FM). Qed.
+  Proof. exact (global_write_is_local SrcId Body loader compiler B FM CHK GRD). Qed.
 
+  (* no exclusion any more: an import (also one that fails at the frame limit) never touches an existing module *)
   Theorem C14_attrs_frame : forall st e q,
-    q < List.length (heap st) ->
+    Inv B st -> q < List.length (heap st) ->
     match e with
     | ESetGlobal _ _ | EDefineGlobal _ _ => active st <> q
     | ESetAttr m _ _ => m <> q
-    | EStartImport _ => List.length (frames st) <> FM      (* KnownClass import_at_frame_limit excluded *)
     | _ => True
     end ->
     attrs_of (fst (stepM st e)) q = attrs_of st q.
-  Proof. exact (attrs_frame SrcId Body loader compiler B FM). Qed.
+  Proof.
+    exact (fun st e q I Hq He =>
+             attrs_frame SrcId Body loader compiler B FM CHK GRD st e q I Hq
+               (match e as e0 return
+                      (match e0 with
+                       | ESetGlobal _ _ | EDefineGlobal _ _ => active st <> q
+                       | ESetAttr m _ _ => m <> q
+                       | _ => True end) ->
+                      (match e0 with
+                       | ESetGlobal _ _ | EDefineGlobal _ _ => active st <> q
+                       | ESetAttr m _ _ => m <> q
+                       | EStartImport _ => GRD = true \/ List.length (frames st) <> FM
+                       | _ => True end)
+                with
+                | EStartImport _ => fun _ => or_introl (proj1 (proj2 C14_side_variant))
+                | _ => fun h => h
+                end He)).
+  Qed.
 
   Theorem C14_builtins_in_every_module : forall evs id b,
     let st := runM init evs in
     id = 0 \/ In id (ran st) -> In b B -> exists v, alookup (attrs_of st id) b = Some v.
-  Proof. exact (builtins_in_every_module SrcId Body loader compiler B FM main_attrs C14_side_main_has_builtins). Qed.
+  Proof. exact (builtins_in_every_module SrcId Body loader compiler B FM CHK GRD main_attrs C14_side_main_has_builtins). Qed.
 
   (* a fresh module has the names of init_built_in_globals and NOTHING else (so `main_only` below must be empty) *)
   Theorem C14_fresh_module_has_only_builtins : forall st p s b,
@@ -142,7 +205,7 @@ Section Oracles.
     snd (stepM st (EStartImport p)) = OEntered (List.length (heap st)) b
     /\ active st' = List.length (heap st)
     /\ forall c, ~ In c B -> alookup (attrs_of st' (List.length (heap st))) c = None.
-  Proof. exact (fresh_module_has_only_builtins SrcId Body loader compiler B FM). Qed.
+  Proof. exact (fresh_module_has_only_builtins SrcId Body loader compiler B FM CHK GRD). Qed.
 End Oracles.
 
 (* --- what the translator read from the current sources agrees with what Modules.v hard-wires --- *)
@@ -173,43 +236,66 @@ Proof. vm_compute; repeat split; reflexivity. Qed.
 Theorem C14_side_builtin_names_known : forallb (fun b => negb (String.eqb b "?")) B = true /\ existsb (String.eqb "print") B = true.
 Proof. vm_compute; split; reflexivity. Qed.
 
-(* --- findings, as refutations of the unrestricted statements (witnesses by computation) --- *)
-Theorem C14_import_at_frame_limit_refuted :
-  exists evs, let st0 := w_run w_init evs in let st := fst (w_step st0 (EStartImport "q")) in
-    alookup (attrs_of st0 0) "print" = Some (VNum 7)
-    /\ List.length (frames st0) = 3
-    /\ alookup (attrs_of st 0) "print" = Some (VBuiltin "print")
-    /\ alookup (reg st) "q" = Some 1 /\ ran st = [] /\ m_imported (getmod st 1) = false
-    /\ snd (w_step (fst (w_step st EPushHandler)) (EStartImport "q")) = OCaught (XErr (mkerr KImport [cyc_msg "q"])).
-Proof. exact import_at_frame_limit_refuted. Qed.
-
 (* --- every name module main has at start-up is defined by init_built_in_globals, hence in every module --- *)
 Theorem C14_side_no_main_only_names : main_only = [].
 Proof. vm_compute; reflexivity. Qed.
 
 Theorem C14_startup_names_in_every_module :
   forall (SrcId Body : Type) (loader : path -> load_result SrcId) (compiler : path -> SrcId -> comp_result Body) evs id b,
-  let st := run_events SrcId Body loader compiler B FM (init_state main_attrs) evs in
+  let st := run_events SrcId Body loader compiler B FM CHK GRD (init_state main_attrs) evs in
   id = 0 \/ In id (ran st) -> In b (B ++ C) -> exists v, alookup (attrs_of st id) b = Some v.
 Proof.
   exact (fun SrcId Body loader compiler evs id b =>
-           startup_names_in_every_module SrcId Body loader compiler B C FM evs id b C14_side_no_main_only_names).
+           startup_names_in_every_module SrcId Body loader compiler B C FM CHK GRD evs id b C14_side_no_main_only_names).
 Qed.
 
-Theorem C14_reimport_after_failed_body_reports_cycle :
+(* --- the two repaired defects: behaviour of the current variant, and the old behaviour as refutations on the
+       model variant with both booleans false (witnesses by computation; frames_max = 3 instance) --- *)
+Theorem C14_reimport_after_failed_body_reloads :
   exists evs, let st := w_run w_init evs in
-    frames st = [mkframe 0 true []] /\ ran st = [1]
-    /\ snd (w_step st (EStartImport "m")) = OCaught (XErr (mkerr KImport [cyc_msg "m"])).
-Proof. exact reimport_after_failed_body_reports_cycle. Qed.
+    frames st = [mkframe 0 true] /\ ran st = [1] /\ alookup (reg st) "m" = Some 1 /\ is_loading st 1 = false
+    /\ snd (w_step st (EStartImport "m")) = OEntered 2 tt
+    /\ ran (fst (w_step st (EStartImport "m"))) = [2; 1] /\ loads (fst (w_step st (EStartImport "m"))) = ["m"; "m"]
+    /\ alookup (reg (fst (w_step st (EStartImport "m")))) "m" = Some 2.
+Proof. exact reimport_after_failed_body_reloads. Qed.
 
+Theorem C14_import_at_frame_limit_is_clean :
+  exists evs, let st0 := w_run w_init evs in let st := fst (w_step st0 (EStartImport "q")) in
+    alookup (attrs_of st0 0) "print" = Some (VNum 7) /\ List.length (frames st0) = 3
+    /\ snd (w_step st0 (EStartImport "q")) = OCaught (XErr (mkerr KIndex [stack_overflow_msg]))
+    /\ alookup (attrs_of st 0) "print" = Some (VNum 7) /\ ran st = []
+    /\ snd (w_step (fst (w_step st EPushHandler)) (EStartImport "q")) = OEntered 2 tt.
+Proof. exact import_at_frame_limit_is_clean. Qed.
+
+Theorem C14_import_at_frame_limit_refuted_old :
+  exists evs, let st0 := w_run_old w_init evs in let st := fst (w_step_old st0 (EStartImport "q")) in
+    alookup (attrs_of st0 0) "print" = Some (VNum 7)
+    /\ List.length (frames st0) = 3
+    /\ alookup (attrs_of st 0) "print" = Some (VBuiltin "print")
+    /\ alookup (reg st) "q" = Some 1 /\ ran st = [] /\ m_imported (getmod st 1) = false
+    /\ snd (w_step_old (fst (w_step_old st EPushHandler)) (EStartImport "q")) = OCaught (XErr (mkerr KImport [cyc_msg "q"])).
+Proof. exact import_at_frame_limit_refuted_old. Qed.
+
+Theorem C14_reimport_after_failed_body_reports_cycle_refuted_old :
+  exists evs, let st := w_run_old w_init evs in
+    frames st = [mkframe 0 true] /\ ran st = [1] /\ is_loading st 1 = false
+    /\ snd (w_step_old st (EStartImport "m")) = OCaught (XErr (mkerr KImport [cyc_msg "m"])).
+Proof. exact reimport_after_failed_body_reports_cycle_refuted_old. Qed.
+
+Print Assumptions C14_side_variant.
 Print Assumptions C14_side_main_has_builtins.
 Print Assumptions C14_invariant.
 Print Assumptions C14_body_runs_at_most_once.
-Print Assumptions C14_loaded_at_most_once.
+Print Assumptions C14_body_starts_only_if_absent_or_failed.
+Print Assumptions C14_loader_called_only_if_absent_or_failed.
+Print Assumptions C14_loaded_module_is_settled.
+Print Assumptions C14_settled_import_is_cached.
+Print Assumptions C14_yielded_is_settled.
 Print Assumptions C14_same_module_object.
 Print Assumptions C14_module_object_determines_path.
 Print Assumptions C14_cycle_is_import_error.
 Print Assumptions C14_loading_module_is_cycle_error.
+Print Assumptions C14_failed_import_is_retried.
 Print Assumptions C14_failed_load_is_import_error.
 Print Assumptions C14_failed_compile_is_import_error.
 Print Assumptions C14_failed_import_registers_nothing.
@@ -230,7 +316,9 @@ Print Assumptions C14_side_main_literal.
 Print Assumptions C14_side_import_shape.
 Print Assumptions C14_side_active_module_sites.
 Print Assumptions C14_side_builtin_names_known.
-Print Assumptions C14_import_at_frame_limit_refuted.
 Print Assumptions C14_side_no_main_only_names.
 Print Assumptions C14_startup_names_in_every_module.
-Print Assumptions C14_reimport_after_failed_body_reports_cycle.
+Print Assumptions C14_reimport_after_failed_body_reloads.
+Print Assumptions C14_import_at_frame_limit_is_clean.
+Print Assumptions C14_import_at_frame_limit_refuted_old.
+Print Assumptions C14_reimport_after_failed_body_reports_cycle_refuted_old.
